@@ -254,7 +254,7 @@ impl<'t> Gen<'t> {
             6,                                // 1 listen to dest
             4,                                // 2 say var
             2,                                // 3 bare listen
-            2,                                // 4 say const
+            3,                                // 4 say const
             1,                                // 5 say concat
             1,                                // 6 assign literal
             2,                                // 7 filler
@@ -273,7 +273,10 @@ impl<'t> Gen<'t> {
             2 => ops.push(Op::SayVar(self.sayable(s))),
             3 => ops.push(Op::Listen(None)),
             4 => {
-                let c = match self.t.draw(7) {
+                let c = match self.t.draw(8) {
+                    7 => Const::Canonical(*self.t.pick(&[
+                        "0.125", "1000000", "123456789", "0.001", "-0.75", "3.14159", "0", "65536",
+                    ])),
                     0 => Const::Int(self.t.draw(2000) as i64 - 1000),
                     1 => Const::Half(self.t.draw(50) as i64),
                     2 => Const::True,
@@ -379,8 +382,13 @@ impl<'t> Gen<'t> {
             }
             14 => {
                 let v = *self.t.pick(&s.strs);
-                ops.push(Op::Listen(Some(VarRef::Plain(v))));
-                ops.push(Op::SayIt(v))
+                if self.t.chance(1, 3) {
+                    ops.push(Op::SayVar(VarRef::Plain(v)));
+                    ops.push(Op::ListenIt(v))
+                } else {
+                    ops.push(Op::Listen(Some(VarRef::Plain(v))));
+                    ops.push(Op::SayIt(v))
+                }
             }
             _ => {
                 if self.t.chance(1, 4) {
@@ -401,11 +409,19 @@ pub fn gen_input(t: &mut Tape) -> Vec<u8> {
     let n = t.weighted(&[2, 3, 3, 3, 2, 2, 1, 1, 1]);
     let mut out: Vec<u8> = Vec::new();
     for i in 0..n {
-        match t.weighted(&[6, 2, 3, 1, 1, 1]) {
+        match t.weighted(&[6, 2, 3, 1, 1, 1, 2, 1]) {
             0 => out.extend_from_slice(format!("in{}-{}", i, t.pick(WORDS)).as_bytes()),
             1 => {}
             2 => out.extend_from_slice(format!("ünï{} çödé {}", i, t.pick(WORDS)).as_bytes()),
             3 => out.extend_from_slice(format!("cr\rmid{}", i).as_bytes()),
+            6 => out.extend_from_slice(
+                (*t.pick(&[
+                    "05", "1e3", "  42", "-0", "0x10", "true", "null", "mysterious", "3.50", "+7",
+                    "nothing", "\"quoted\"", "1,2",
+                ]))
+                .as_bytes(),
+            ),
+            7 => out.extend_from_slice(format!("trailing space {} \t", i).as_bytes()),
             4 => {
                 let len = 20 + t.draw(200) as usize;
                 for k in 0..len {
